@@ -188,10 +188,19 @@ def gen_scenario(r, scripts, nfiles=None, use_ai=True, use_lua=True, dirs=True, 
     s = Scenario()
     nfiles = nfiles or r.randint(1, 6)
     bi = 0
+    prev = None
     for fi in range(nfiles):
         ext, opener = r.choice(HOSTS)
         d = r.choice(["", "", "src/", "docs/sub/", "a/", "b/"]) if dirs else ""
         path = "%sf%d.%s" % (d, fi, ext)
+        if dirs and prev and r.random() < 0.3:
+            # same file name as the previous file, in another directory (e.g. f0.py and src/f0.py): a root-relative path must never
+            # be resolved against the directory blockwatch was started in
+            d2 = r.choice([x for x in ["", "src/", "docs/sub/", "a/", "b/"] if x != prev[0]])
+            cand = "%sf%d.%s" % (d2, prev[1], prev[2])
+            if cand not in s.files:
+                ext, opener, path, d = prev[2], prev[3], cand, d2
+        prev = (d, fi if path.endswith("f%d.%s" % (fi, ext)) else prev[1], ext, opener)
         blocks = []
         for _ in range(r.randint(min_blocks, max_blocks)):
             blocks.append(gen_block(r, "n%d" % bi, scripts, use_ai, use_lua))
